@@ -283,6 +283,24 @@ def rule_chain(check):
                 src_ok = src_ok and direct
             idx_roots = _root_calls(prog, pv, g, a[i])
             check.expect(src_ok, R, "%s/%s" % (R, getter), hir.loc(n), "%s index built from original.%s()" % (adder, getter), "%s index is not built from the original token's %s() (%s)" % (adder, getter, sorted(idx_roots)))
+        # the interning memo (original source / name -> index in the chained map) is keyed by the very
+        # value that is interned: a coarser key (base name, lower-cased, trimmed ..) hands a token the index
+        # of another source (seed C11-chain-sources-deduped-by-basename)
+        conv = {"get_source", "get_name"}  # conversions (String::from, clone, unwrap ..) are seen through by deep_origins; a crate helper such as file_name() leaves its own leaf calls
+        for ug in flat:
+            for x in ug.nodes():
+                if x.get("k") != "MethodCall" or x.get("method") not in ("get", "insert", "contains_key", "entry", "get_mut", "remove", "get_or_insert_with"):
+                    continue
+                rty = re.sub(r"^&(mut )?", "", hir.peel(x["recv"]).get("ty") or "")
+                if not re.search(r"\b(HashMap|BTreeMap|IndexMap|AHashMap)<", rty):
+                    continue
+                key = hir.call_args(x)[1] if len(hir.call_args(x)) > 1 else None
+                if key is None:
+                    continue
+                kr = _root_calls(prog, pv, ug, key)
+                odd = sorted(c for c in kr if c not in conv and not str(c).startswith(("closure_param", "param")))
+                has_getter = bool(kr & {"get_source", "get_name"}) or all(str(c).startswith(("closure_param", "param")) for c in kr)
+                check.expect(not odd and has_getter, R, "%s/memo-key/%s/%s" % (R, x.get("method"), "+".join(sorted(kr & conv)) or "other"), hir.loc(x), "the memo of interned sources / names is keyed by the original token's get_source() / get_name() itself", "the memo of interned sources / names is consulted under a derived key (%s): two different sources / names can share one index in the chained map" % (odd or sorted(kr)))
         # closed set of effects on the builder: sources already carry the original map's sourceRoot
         # (sourcemap::Token::get_source), so e.g. set_source_root would apply it twice
         used = {}
